@@ -90,3 +90,64 @@ class PathCond:
 
     def fp(self):
         return (tuple(sorted(self.rows.items())), tuple(sorted((repr(k), tuple(sorted(v))) for k, v in self.vals.items())))
+
+
+def eval_bx(e, assign):
+    v = e[1]
+    for a in mask_atoms(e[0]):
+        v ^= assign[a]
+    return v
+
+
+_OPS = {"Eq": lambda x, y: x == y, "Ne": lambda x, y: x != y, "Lt": lambda x, y: x < y, "Le": lambda x, y: x <= y,
+        "Gt": lambda x, y: x > y, "Ge": lambda x, y: x >= y}
+
+
+def eval_fact(f, assign):
+    """truth of one path fact under a total assignment of the atoms it mentions; None if not evaluable"""
+    k = f[0]
+    if k == "lin":
+        return eval_bx((f[1], 0), assign) == f[2]
+    if k == "vals":
+        v = 0
+        for i, e in enumerate(f[1]):
+            if e is None:
+                return None
+            v |= eval_bx(e, assign) << i
+        return v in f[2]
+    if k == "guard":
+        g = f[1]
+        op = g.get("op")
+        if op in _OPS and isinstance(g.get("a"), dict) and isinstance(g.get("b"), dict):
+            def val(d):
+                if "const" in d:
+                    return d["const"]
+                if "lin" in d:
+                    return d["lin"].eval(assign)
+                return None
+            x, y = val(g["a"]), val(g["b"])
+            if x is None or y is None:
+                return None
+            return _OPS[op](x, y)
+        if op == "try_from" and g.get("lin") is not None:
+            v = g["lin"].eval(assign)
+            t = g["to"]
+            bits = int(t[1:])
+            lo, hi = (-(1 << (bits - 1)), (1 << (bits - 1)) - 1) if t[0] == "i" else (0, (1 << bits) - 1)
+            return (lo <= v <= hi) == (g["outcome"] == "ok")
+        if op == "notin" and isinstance(g.get("a"), dict) and "lin" in g["a"]:
+            return g["a"]["lin"].eval(assign) not in g["b"]
+        return None
+    return None
+
+
+def facts_atoms(facts):
+    from .values import fact_atoms
+    s = frozenset()
+    for f in facts:
+        if f[0] == "guard":
+            g = f[1]
+            s |= g.get("deps", frozenset())
+        else:
+            s |= fact_atoms(f)
+    return s
